@@ -5,6 +5,7 @@ arguments of RESTORE as redigo writes them) were written by different builders w
 -/
 import RSVerif.Spec.Resp
 import RSVerif.Spec.MiniRedisC02
+import RSVerif.Spec.Slot
 namespace RSVerif.Properties.C10
 open RSVerif
 
@@ -30,4 +31,33 @@ theorem decimal_specs_agree_int (n : Nat) : Spec.Resp.fmtInt (n : Int) = Spec.Mi
   simp [this]
 
 example : Spec.MiniRedisC02.fmtNat 1048601 = [49, 48, 52, 56, 54, 48, 49] := by decide
+
+private def cvt (c : Char) : UInt8 := UInt8.ofNat c.toNat
+
+private theorem digit_cvt (d : Nat) (h : d < 10) : cvt (Nat.digitChar d) = Spec.Resp.digitChar d := by
+  have : d = 0 ∨ d = 1 ∨ d = 2 ∨ d = 3 ∨ d = 4 ∨ d = 5 ∨ d = 6 ∨ d = 7 ∨ d = 8 ∨ d = 9 := by omega
+  rcases this with h | h | h | h | h | h | h | h | h | h <;> subst h <;> decide
+
+private theorem core_spec (f : Nat) : ∀ (n : Nat) (acc : List Char), n < f →
+    (Nat.toDigitsCore 10 f n acc).map cvt = Spec.Resp.natDigitsF f n ++ acc.map cvt := by
+  induction f with
+  | zero => intro n acc h; omega
+  | succ f ih =>
+    intro n acc h
+    unfold Nat.toDigitsCore Spec.Resp.natDigitsF
+    by_cases h10 : n < 10
+    · have hd : n / 10 = 0 := by omega
+      have hm : n % 10 = n := by omega
+      simp [hd, hm, h10, digit_cvt n h10]
+    · have hd : n / 10 ≠ 0 := by omega
+      simp only [hd, if_false, h10]
+      rw [ih (n / 10) _ (by omega)]
+      simp [digit_cvt (n % 10) (by omega)]
+
+/-- the decimal text of the C15 specification (names of the synthetic latency keys, via `Nat.toDigits`) is the C10 number text -/
+theorem itoa_is_fmtNat (n : Nat) : Spec.Slot.itoa n = Spec.Resp.fmtNat n := by
+  unfold Spec.Slot.itoa Spec.Resp.fmtNat Nat.toDigits
+  have := core_spec (n + 1) n [] (by omega)
+  simp only [List.map_nil, List.append_nil] at this
+  exact this
 end RSVerif.Properties.C10
